@@ -5,7 +5,9 @@ under /verif/seeded/<PID>-<V>/ with meta.json. Usage: confirm_seed.py C02 A [det
 import json, os, re, shutil, subprocess, sys
 pid, v = sys.argv[1], sys.argv[2]
 detected_by = sys.argv[3:]
-wt=f'/tmp/seedwork/wt-{pid}'; out=f'/tmp/seedwork/out-{pid}/{v}'
+R=os.environ.get('ROUND','1')
+sfx='' if R=='1' else R
+wt=f'/tmp/seedwork/wt{sfx}-{pid}'; out=f'/tmp/seedwork/out{sfx}-{pid}/{v}'
 env=dict(os.environ, RUSTUP_TOOLCHAIN='1.88.0', CARGO_NET_OFFLINE='true')
 def sh(cmd): return subprocess.run(cmd, shell=True, cwd=wt, env=env, capture_output=True, text=True)
 readme=open(f'{out}/README.md').read()
@@ -35,14 +37,14 @@ try:
 finally:
     sh('git checkout -- .'); 
     if os.path.exists(demo_dst): os.remove(demo_dst)
-dst=f'/verif/seeded/{pid}-{v}'
+dst=f'/verif/seeded/{pid}-{v}' if R=='1' else f'/verif/seeded/{pid}-R{R}{v}'
 os.makedirs(dst, exist_ok=True)
 for f in ['patch.diff','demo.rs','README.md']: shutil.copy(f'{out}/{f}', f'{dst}/{f}')
 meta={'property':pid,'variant':v,'demo_test_name':name,'demo_needs_feature_verif':bool(feat),
       'demo_placement':f'chitchat/tests/{name}.rs',
       'what_it_needs_to_manifest':'see README.md (written by the sub-agent that produced the change)',
       'confirmed_by_me':ran,'demo_failure_excerpt':fail_line,
-      'source':'independent sub-agent given only the property text and a scratch worktree',
+      'source':'independent sub-agent given only the property text and a scratch worktree' + ('' if R=='1' else f' (round {R}: also told which mechanisms had been tried and asked for changes a random-history tester would be unlikely to reach)'),
       'detected_by':detected_by}
 json.dump(meta, open(f'{dst}/meta.json','w'), indent=1)
 print('CONFIRMED', pid, v, name, fail_line[:1])
